@@ -61,6 +61,8 @@ struct Model {
     pending: Option<Option<BTreeSet<u64>>>,
     /// Every id ever returned by add.
     used: BTreeSet<u64>,
+    /// The same ids as handed out (removed channels included), for lookups by readers.
+    all_ids: Vec<LocalChannelId>,
     /// (id, pool key, is seal side) of the channels currently in the table.
     live: Vec<(LocalChannelId, usize, bool)>,
 }
@@ -126,6 +128,7 @@ fn exec(p: P, keys: &Keys) -> ExecEnd {
         let id = r.unwrap_or_else(|e| vcommon::harness_error(&format!("C42 setup add: {e}")));
         let idn = id_u64(id);
         init.used.insert(idn);
+        init.all_ids.push(id);
         init.sets[0].insert(idn);
         init.live.push((id, k, seal));
         first_id = Some(first_id.map_or(idn, |f: u64| f.max(idn)));
@@ -188,6 +191,7 @@ fn exec(p: P, keys: &Keys) -> ExecEnd {
                                     }
                                     last_id = Some(idn);
                                     m.used.insert(idn);
+                                    m.all_ids.push(id);
                                     let mut s = m.cur().clone();
                                     s.insert(idn);
                                     m.sets.push(s);
@@ -325,11 +329,12 @@ fn exec(p: P, keys: &Keys) -> ExecEnd {
                 if sim::has_violation() {
                     return;
                 }
-                let op = match sim::rand_below(10) {
+                let op = match sim::rand_below(12) {
                     0..=3 => 0,
                     4 | 5 => 2,
                     6 | 7 => 3,
-                    _ => 4,
+                    8 | 9 => 4,
+                    _ => 5,
                 };
                 let r = sim::quiet_catch(|| -> Result<(), (String, String)> {
                     match op {
@@ -387,6 +392,39 @@ fn exec(p: P, keys: &Keys) -> ExecEnd {
                                     Ok(_) | Err(Error::NotFound(_)) | Err(Error::KeyExpired) => {}
                                     Err(e) => return Err(("C42.reader-error".into(), format!("seal failed with {e}"))),
                                 }
+                            }
+                        }
+                        // ---- `exists` through the reader state: the table it consults must be one
+                        // the writer produced between the call's invocation and its return.
+                        5 => {
+                            let (id, first) = {
+                                let m = model.lock().expect("model");
+                                if m.all_ids.is_empty() {
+                                    return Ok(());
+                                }
+                                (m.all_ids[sim::rand_below(m.all_ids.len() as u64) as usize], m.sets.len() - 1)
+                            };
+                            let lid = id;
+                            let id = id_u64(lid);
+                            let got = AfcState::exists(client.state(), lid).map_err(|e| ("C42.reader-error".to_string(), format!("exists failed: {e}")))?;
+                            let m = model.lock().expect("model");
+                            sim::log_event(t, &format!("r.exists {id} -> {got}"));
+                            sim::count("reader_exists");
+                            let mut candidates: Vec<bool> = m.sets[first..].iter().map(|s| s.contains(&id)).collect();
+                            match &m.pending {
+                                Some(Some(s)) => candidates.push(s.contains(&id)),
+                                // an add in progress only adds a never-used id; `id` was used before
+                                Some(None) => candidates.push(m.cur().contains(&id)),
+                                None => {}
+                            }
+                            if candidates.len() > 1 {
+                                sim::count("reader_exists_overlapping_writer_op");
+                            }
+                            if !candidates.contains(&got) {
+                                return Err((
+                                    "C42.unknown-table".into(),
+                                    format!("reader {t}: exists({id}) = {got}, but every channel set the writer produced during the call ({} of them) says {}", candidates.len(), !got),
+                                ));
                             }
                         }
                         _ => {
